@@ -1,9 +1,9 @@
 PROP = dict(
     properties="Properties/C20.v",
     harness_mods=["Harness/C20.v"],
-    runs=[dict(cmd="c20", quick=1500, thorough=20000),
-          dict(cmd="c20sync", quick=100, thorough=3000, timeout=6000),
-          dict(cmd="c20race", quick=30, thorough=600, race=True)],
+    runs=[dict(cmd="c20", quick=1500, thorough=10000),
+          dict(cmd="c20sync", quick=100, thorough=700, timeout=6000),
+          dict(cmd="c20race", quick=30, thorough=300, race=True)],
     trusted_base=[
         "hand-written Gallina model coq/Sync/Queue.v of pkg/network/bqueue (lock regions as atomic actions), tied by serialised schedules of the real queue",
         "hand-written Gallina model coq/Sync/Restore.v of statesync.Module.AddMPTNodes/restoreNode/defineSyncStage, statesync.Pool and the restore part of mpt.Billet, tied by differential runs of the real module",
